@@ -44,6 +44,8 @@ type Frame struct {
 }
 
 type loopInfo struct {
+	headSt *St // state at the start of the current iteration (after havoc and invariant)
+	backIns []edgeIn // back edges collected for the step clauses (checked once on the merged state)
 	head   *ssa.BasicBlock
 	blocks map[*ssa.BasicBlock]bool
 	minPos token.Pos
@@ -307,6 +309,7 @@ func (e *Enc) runFunction(fr *Frame, entry pathState) (pathState, []Val, bool) {
 			}
 		}
 	}
+	e.checkSteps(fr)
 	fr.evalAtExit = true
 	if len(rets) == 0 {
 		// function never returns normally
@@ -449,6 +452,17 @@ func (e *Enc) enterLoop(fr *Frame, li *loopInfo, ins []edgeIn) pathState {
 		}
 		e.assumeIf(reach, t)
 	}
+	if fr.contract != nil {
+		for _, c := range fr.contract.LoopAssume[li.ord] {
+			t, err := e.evalClause(fr, c, st, fr.entry, nil, true)
+			if err != nil {
+				e.errorf("%s: loop %d assume %s: %v", fr.name, li.ord, c.Label, err)
+				continue
+			}
+			e.assumeIf(reach, t)
+		}
+	}
+	li.headSt = st.clone()
 	return pathState{reach, st}
 }
 
@@ -493,12 +507,62 @@ func (e *Enc) checkInvariant(fr *Frame, li *loopInfo, reach string, st *St, when
 
 func (e *Enc) backEdge(fr *Frame, li *loopInfo, from *ssa.BasicBlock, reach string, st *St) {
 	e.checkInvariant(fr, li, reach, st, "back")
+	if fr.contract != nil && li.headSt != nil && len(fr.contract.LoopStep[li.ord]) > 0 {
+		li.backIns = append(li.backIns, edgeIn{from, reach, st})
+	}
 	if e.framesOn() {
 		goals := e.frameGoals(st)
 		for _, name := range sortedKeys(goals) {
 			c := e.comps[name]
 			e.addObl("frame", fmt.Sprintf("%sloop%d:%s", e.framePrefix(fr), li.ord, c.Name), reach, goals[name], li.minPos, "loop body changes only declared locations of "+c.Fam)
 		}
+	}
+}
+
+
+// checkSteps: per-iteration postconditions, checked once on the merge of all back edges.
+func (e *Enc) checkSteps(fr *Frame) {
+	if fr.contract == nil {
+		return
+	}
+	var lis []*loopInfo
+	seen := map[*loopInfo]bool{}
+	for _, b := range fr.fn.Blocks {
+		if li := fr.loops[b]; li != nil && !seen[li] {
+			seen[li] = true
+			lis = append(lis, li)
+		}
+	}
+	for _, li := range lis {
+		if len(li.backIns) == 0 || li.headSt == nil {
+			continue
+		}
+		m := e.mergeStates(li.backIns, fmt.Sprintf("f%d_loop%d_back", fr.id, li.ord))
+		st, reach := m.st, m.reach
+		for i, c := range fr.contract.LoopStep[li.ord] {
+			lbl := c.Label
+			if lbl == "" {
+				lbl = fmt.Sprintf("%d", i+1)
+			}
+			parts := splitConjuncts(c.Expr)
+			for j, part := range parts {
+				pc := &Clause{Kind: c.Kind, Label: c.Label, Text: part.String(), Expr: part, Loop: c.Loop, File: c.File, Line: c.Line}
+				ctx := e.frameCtx(fr, st, fr.entry, true)
+				ctx.loop = li
+				ctx.iter = li.headSt
+				sv, err := e.evalSpec(pc.Expr, ctx)
+				if err != nil || sv.Sort != "Bool" {
+					e.errorf("%s: loop %d step %s: %v", fr.name, li.ord, c.Label, err)
+					continue
+				}
+				l := lbl
+				if len(parts) > 1 {
+					l = fmt.Sprintf("%s.%d", lbl, j+1)
+				}
+				e.addObl("step", fmt.Sprintf("%sloop%d:%s", e.framePrefix(fr), li.ord, l), reach, sv.T, li.minPos, pc.Text)
+			}
+		}
+		li.backIns = nil
 	}
 }
 
@@ -1216,6 +1280,7 @@ func (e *Enc) execUnOp(fr *Frame, x *ssa.UnOp, cur *pathState) {
 			}
 			tc := e.comp("recvtotal", "Int", "ghost", "G:recv")
 			e.set(cur.st, tc, "(+ "+e.get(cur.st, tc)+" 1)")
+			e.chanRecvGhost(fr, cur, "true", x.X, r)
 			if r.S == "Int" {
 				cc := e.comp("recvcount", "(Array Int Int)", "ghost", "G:recv")
 				e.set(cur.st, cc, store(e.get(cur.st, cc), r.T, "(+ "+sel(e.get(cur.st, cc), r.T)+" 1)"))
@@ -1661,8 +1726,51 @@ func (e *Enc) execSelect(fr *Frame, x *ssa.Select, cur *pathState) {
 			}
 		}
 	}
+	// ghosts: received(ch) / lastrecv(ch) in specifications
+	ri := 2
+	for i, s := range x.States {
+		if s.Dir != types.RecvOnly {
+			continue
+		}
+		e.chanRecvGhost(fr, cur, eq(idx, fmt.Sprint(i)), s.Chan, tup[ri])
+		ri++
+	}
 	e.note("select: the chosen ready case is arbitrary (no blocking or fairness modelled)")
 	fr.regs[x] = Val{Tup: tup, Typ: x.Type()}
+}
+
+// chanRecvGhost: under cond, one more value has been received through the channel expression ch,
+// the last being v. Receives are attributed to the struct field the channel was loaded from
+// (received(x.f) / lastrecv(x.f) in specifications), so no assumption about distinct channel
+// values is needed; channels not loaded from a field are not tracked.
+func (e *Enc) chanRecvGhost(fr *Frame, cur *pathState, cond string, ch ssa.Value, v Val) {
+	ld, ok := ch.(*ssa.UnOp)
+	if !ok || ld.Op != token.MUL {
+		return
+	}
+	fa, ok := ld.X.(*ssa.FieldAddr)
+	if !ok {
+		return
+	}
+	stT, ok := derefStruct(fa.X.Type())
+	if !ok {
+		return
+	}
+	owner := e.val(fr, fa.X)
+	if owner.S != "Ref" {
+		return
+	}
+	fname := stT.Underlying().(*types.Struct).Field(fa.Field).Name()
+	key := e.structName(stT) + "_" + sanitize(fname)
+	cc := e.comp("chrecv_"+key, "(Array Ref Int)", "ghost", "G:recv")
+	old := e.get(cur.st, cc)
+	e.set(cur.st, cc, ite(cond, store(old, owner.T, "(+ "+sel(old, owner.T)+" 1)"), old))
+	if v.S == "" || v.Tup != nil || v.S == "Unit" {
+		return
+	}
+	lc := e.comp("chlast_"+key, "(Array Ref "+v.S+")", "ghost", "G:recv")
+	lo := e.get(cur.st, lc)
+	e.set(cur.st, lc, ite(cond, store(lo, owner.T, v.T), lo))
 }
 
 // ctxDone: ghost monotone boolean "context ctx is cancelled" as of the current state.
